@@ -93,6 +93,7 @@ func runC11(c *Ctx) {
 	c11TerminalFrame(c)
 	c11ExitCloses(c)
 	c11Tables(c)
+	c11PerOperationMessage(c)
 }
 
 func c11InitFirst(c *Ctx) {
@@ -811,4 +812,101 @@ func intCases(fn *ssa.Function, isSubject func(ssa.Value) bool) map[int64]bool {
 		}
 	}
 	return out
+}
+
+// c11PerOperationMessage: every operation of a connection keeps, for its whole life, the *message that started it (its id is
+// used for every data/error/complete frame and for the clean-up of `active`).  A function of the connection that retains a
+// pointer parameter in a goroutine must therefore be handed a variable that is fresh for that call: when the call sits in a loop,
+// the pointed-to variable is declared inside that loop iteration, or at least never assigned again inside the loop.
+func c11PerOperationMessage(c *Ctx) {
+	c.R.Rule("per-operation-message", "a pointer argument that a wsConnection method keeps in a goroutine it starts (subscribe keeps the start message) does not point to a variable that is re-assigned by later iterations of the loop containing the call", 1)
+	n := 0
+	for _, fn := range c.wsMethods() {
+		loops := an.Loops(fn)
+		if len(loops) == 0 {
+			continue
+		}
+		for _, b := range fn.Blocks {
+			for _, in := range b.Instrs {
+				call, ok := in.(*ssa.Call)
+				if !ok {
+					continue
+				}
+				callee := call.Call.StaticCallee()
+				if callee == nil || callee.Pkg == nil || callee.Pkg.Pkg.Path() != pkgTransport || len(callee.Blocks) == 0 {
+					continue
+				}
+				for i, a := range call.Call.Args {
+					if i >= len(callee.Params) {
+						continue
+					}
+					if _, isPtr := a.Type().Underlying().(*types.Pointer); !isPtr {
+						continue
+					}
+					if !keptByGoroutine(callee, callee.Params[i]) {
+						continue
+					}
+					root, isAlloc := an.RootAlloc(a).(*ssa.Alloc)
+					if !isAlloc {
+						continue
+					}
+					// innermost loop containing the call
+					var loop *an.Loop
+					for _, l := range loops {
+						if l.Blocks[b] && (loop == nil || len(l.Blocks) < len(loop.Blocks)) {
+							loop = l
+						}
+					}
+					if loop == nil {
+						continue
+					}
+					n++
+					key := shortFn(topFn(fn)) + "→" + callee.Name() + "/arg:" + root.Name()
+					if loop.Blocks[root.Block()] {
+						c.R.OK(key, c.ipos(call), "the variable is declared inside the loop: one per iteration")
+						continue
+					}
+					bad := ""
+					for _, st := range an.CellStores(root) {
+						if loop.Blocks[st.Block()] {
+							bad = "the variable is declared outside the read loop and assigned again at " + c.ipos(st) + ": every operation started on this connection shares it, so a later frame changes the id under which running operations send their results, complete and clean up"
+						}
+					}
+					c.R.Check(bad == "", key, c.ipos(call), "not re-assigned inside the loop", bad)
+				}
+			}
+		}
+	}
+	if n == 0 {
+		c.R.Fail("per-operation-message found no call in a loop that hands a pointer to a goroutine-starting method")
+	}
+}
+
+// keptByGoroutine: parameter p of fn is captured by a function literal that fn starts with `go` (directly or through defer in it).
+func keptByGoroutine(fn *ssa.Function, p *ssa.Parameter) bool {
+	for _, gs := range an.GoSites(fn) {
+		mc, ok := gs.Go.Call.Value.(*ssa.MakeClosure)
+		if !ok {
+			for _, a := range gs.Go.Call.Args {
+				if an.SameVar(a, p) {
+					return true
+				}
+			}
+			continue
+		}
+		for _, bnd := range mc.Bindings {
+			if bnd == ssa.Value(p) || an.RootAlloc(bnd) == an.RootAlloc(p) {
+				return true
+			}
+			// the parameter spilled to a cell that the closure captures
+			if al, isAl := bnd.(*ssa.Alloc); isAl {
+				for _, st := range an.CellStores(al) {
+					if st.Val == ssa.Value(p) {
+						return true
+					}
+				}
+			}
+		}
+	}
+	return false
 }
